@@ -141,6 +141,40 @@ Definition well_locked_in (tbl : list method) (m : method) : bool :=
   if m_exported m then forallb (exported_path_ok tbl) (m_paths m) && negb (match m_paths m with [] => true | _ => false end)
   else worker_ok tbl m.
 
+(* Diagnostic refinement for reader/writer locks (sync.RWMutex).  The theorem of Part 1 is about an exclusive mutex,
+   and [well_locked_in] above accepts exclusive sections only (RLock/RUnlock fall into the rejecting default).  The
+   predicates below say what a sound use of a shared lock would at least require: a section opened with RLock may
+   only read, directly and through every worker it calls; everything that writes needs the exclusive lock. *)
+Fixpoint reads_only (fuel : nat) (tbl : list method) (w : string) : bool :=
+  match fuel with
+  | O => false
+  | S k =>
+      match lookup tbl w with
+      | Some m =>
+          negb (m_exported m) &&
+          forallb (fun p => forallb (fun e => match e with
+                                              | ReadField _ | Return => true
+                                              | CallWorker w' => reads_only k tbl w'
+                                              | _ => false
+                                              end) p) (m_paths m)
+      | None => false
+      end
+  end.
+
+Fixpoint shared_inside_ok (tbl : list method) (p : list event) : bool :=
+  match p with
+  | RUnlock :: rest => match rest with [Return] => true | _ => false end
+  | ReadField _ :: rest => shared_inside_ok tbl rest
+  | CallWorker w :: rest => reads_only (S (List.length tbl)) tbl w && shared_inside_ok tbl rest
+  | _ => false
+  end.
+
+Definition rw_path_ok (tbl : list method) (p : list event) : bool :=
+  match p with
+  | RLock :: rest => shared_inside_ok tbl rest
+  | _ => exported_path_ok tbl p
+  end.
+
 (* the operations documented "safe for concurrent access" must be present (so that an empty or
    truncated extraction cannot pass vacuously) *)
 Definition bloom_documented_safe : list string :=
